@@ -14,6 +14,10 @@ sys.path.insert(0, HERE)
 import lib  # noqa: E402
 
 BUILD = os.path.join(os.path.dirname(HERE), 'build', 'vx')
+try:
+    VERUS_VERSION = subprocess.run(['verus', '--version'], capture_output=True, text=True).stdout.strip()
+except Exception:
+    VERUS_VERSION = 'unknown'
 
 VERIF_ERRORS = [
     'postcondition not satisfied', 'precondition not satisfied', 'possible arithmetic underflow/overflow',
@@ -27,15 +31,15 @@ VERIF_ERRORS = [
 LIMIT_ERRORS = ['Resource limit (rlimit) exceeded', 'resource limit', 'rlimit']
 
 
-def verus_cmd(path, extra=()):
+def verus_cmd(path, extra=(), multiple_errors=3):
     return ['verus', path, '--edition', '2024', '--error-format=json', '--output-json', '--time',
-            '--multiple-errors', '3', '--no-report-long-running'] + list(extra)
+            '--multiple-errors', str(multiple_errors), '--no-report-long-running'] + list(extra)
 
 
-def run_verus(path, extra=(), timeout=1500):
+def run_verus(path, extra=(), timeout=3000, multiple_errors=3):
     t0 = time.time()
     env = dict(os.environ)
-    p = subprocess.run(verus_cmd(path, extra), capture_output=True, text=True, cwd=os.path.dirname(path), timeout=timeout, env=env)
+    p = subprocess.run(verus_cmd(path, extra, multiple_errors), capture_output=True, text=True, cwd=os.path.dirname(path), timeout=timeout, env=env)
     dt = time.time() - t0
     try:
         js = json.loads(p.stdout[p.stdout.index('{'):])
@@ -199,26 +203,58 @@ def run_batch(batch_name, seed=0, keep=True, retry=True):
         res['status'] = 'tool'
         res['problems'].append('trusted ledger mismatch: undeclared=%s missing=%s' % (sorted(found - declared), sorted(declared - found)))
     extra = list(getattr(mod, 'VERUS_ARGS', []))
-    js, diags, dt, stderr = run_verus(path, extra)
+    me = int(getattr(mod, 'MULTIPLE_ERRORS', 3))   # how many failed obligations Verus reports per function
+    # memoisation by content: the generated file is rebuilt from /repo on every run; if its text (and the verifier
+    # arguments) are byte-identical to a file already verified in this sandbox, the recorded verdict is reused
+    # (Verus is deterministic for a fixed input).  VERIF_NO_CACHE=1 disables it.
+    key = hashlib.sha256((text + '\0' + ' '.join(extra) + '\0' + VERUS_VERSION).encode()).hexdigest()
+    cpath = os.path.join(BUILD, 'cache', key + '.json')
+    cached = None
+    if os.environ.get('VERIF_NO_CACHE') != '1' and os.path.exists(cpath):
+        try:
+            cached = json.load(open(cpath))
+        except Exception:
+            cached = None
+    if cached:
+        js, diags, dt, stderr = cached['js'], cached['diags'], cached['dt'], ''
+        res['cache'] = {'hit': True, 'verified_at': cached.get('at'), 'original_verus_s': cached['dt']}
+    else:
+        js, diags, dt, stderr = run_verus(path, extra, multiple_errors=me)
+        res['cache'] = {'hit': False}
     errors, tool, limits, clauses = analyse(text, fnmap, js, diags)
     instab = []
     if retry and ([e for e in errors if not e['canary']] or limits) and not tool:
         # instability policy (3.1.6): reseed with a larger rlimit; an obligation that passes once is discharged
-        still = None
+        # an obligation of function F counts as discharged by a retry only if that retry reports NO error and NO
+        # resource limit in F (a retry that merely ran out of resources proves nothing)
+        still_failing_fns = None
+        still_keys = None
         for k in range(2):
-            js2, diags2, dt2, _ = run_verus(path, ['--rlimit', str(getattr(mod, 'RETRY_RLIMIT', 40)), '--smt-option', f'smt.random_seed={seed * 7 + k + 1}'])
+            js2, diags2, dt2, _ = run_verus(path, ['--rlimit', str(getattr(mod, 'RETRY_RLIMIT', 40)), '--smt-option', f'smt.random_seed={seed * 7 + k + 1}'], multiple_errors=me)
             e2, t2, l2, _ = analyse(text, fnmap, js2, diags2)
-            key2 = set((e['fn'], e['msg'], e['line']) for e in e2 + l2)
-            still = key2 if still is None else (still & key2)
+            fns2 = set(e['fn'] for e in e2 + l2)
+            keys2 = set((e['fn'], e['msg'], e['line']) for e in e2)
+            limfns2 = set(l['fn'] for l in l2)
+            # a limit in F keeps every first-run error of F alive
+            for e in errors + limits:
+                if e['fn'] in limfns2:
+                    keys2.add((e['fn'], e['msg'], e['line']))
+            still_keys = keys2 if still_keys is None else (still_keys & keys2)
+            still_failing_fns = fns2 if still_failing_fns is None else (still_failing_fns & fns2)
             dt += dt2
         for e in list(errors):
-            if (e['fn'], e['msg'], e['line']) not in still:
+            if (e['fn'], e['msg'], e['line']) not in still_keys and e['fn'] not in still_failing_fns:
                 instab.append(e)
                 errors.remove(e)
         for e in list(limits):
-            if (e['fn'], e['msg'], e['line']) not in still:
+            if e['fn'] not in still_failing_fns:
                 instab.append(e)
                 limits.remove(e)
+    if not cached and js is not None and not tool and not limits and not [e for e in errors if not e['canary']] and not instab:
+        os.makedirs(os.path.join(BUILD, 'cache'), exist_ok=True)
+        slim = {'verification-results': js.get('verification-results'), 'times-ms': {'total': (js.get('times-ms') or {}).get('total')}}
+        json.dump({'js': slim, 'diags': [d for d in diags if d.get('level') == 'error'], 'dt': dt,
+                   'at': time.strftime('%Y-%m-%dT%H:%M:%SZ', time.gmtime())}, open(cpath, 'w'))
     vr = (js or {}).get('verification-results', {})
     if js is None or vr.get('encountered-vir-error') or tool:
         res['status'] = 'tool'
@@ -257,7 +293,7 @@ def run_batch(batch_name, seed=0, keep=True, retry=True):
         'smt_ms': tm.get('smt', {}).get('total') if isinstance(tm.get('smt'), dict) else tm.get('smt'),
         'total_ms': tm.get('total'),
         'sha256': hashlib.sha256(text.encode()).hexdigest()[:16],
-        'cmd': ' '.join(verus_cmd(path, extra)),
+        'cmd': ' '.join(verus_cmd(path, extra, me)),
     })
     return res
 
